@@ -63,16 +63,15 @@ Inductive start_outcome (cf : rcfg) (s : rst) (c k : N) : rst -> Prop :=
 Lemma rstart_outcome : forall cf s c k, startable (r_thr s c) = true ->
   start_outcome cf s c k (rstep cf s (RStart c k)).
 Proof.
-  intros cf s c k St. simpl. rewrite St. destruct (rclean cf s) as [errs last] eqn:C.
-  change errs with (fst (errs, last)). change last with (snd (errs, last)) at 2 4 6 8.
-  rewrite <- C. destruct (r_pend s k) eqn:P.
+  intros cf s c k St. cbn [rstep]. rewrite St.
+  set (R := rclean cf s). assert (C : R = (fst R, snd R)) by (destruct R; reflexivity).
+  rewrite C. cbv beta iota. subst R. destruct (r_pend s k) eqn:P.
   - now apply SO_pending.
-  - replace (fst (rclean cf s) k) with (errs k) by (now rewrite C).
-    destruct (errs k) as [[e exp] |] eqn:E.
+  - destruct (fst (rclean cf s) k) as [[e exp] |] eqn:E.
     + unfold cexpired. destruct (N.ltb_spec exp (r_now s)).
-      * apply SO_reserved; auto. intros e0 x0 H. rewrite C in H. simpl in H. congruence.
-      * eapply SO_cached; eauto. rewrite C. exact E.
-    + apply SO_reserved; auto. intros e0 x0 H. rewrite C in H. simpl in H. congruence.
+      * apply SO_reserved; auto. intros e0 x0 Hx. congruence.
+      * eapply SO_cached; eauto.
+    + apply SO_reserved; auto. intros e0 x0 Hx. congruence.
 Qed.
 
 Lemma rstart_inv : forall cf s c k s', rinv cf s -> startable (r_thr s c) = true ->
@@ -308,7 +307,7 @@ Qed.
 (* C29_rc_cached_error_until_expiry, over histories: after a request for k failed with e at
    time t0, then along EVERY continuation, as long as the clock has not passed t0 + ttl, the error
    is still cached, k is neither reserved nor executing, and a Start of k returns e *)
-Theorem rc_cached_error_until_expiry : forall cf ls1 ls2 c c' k e nf,
+Theorem rc_cached_error_until_expiry : forall cf ls1 ls2 c c' k e (nf : bool),
   let s1 := rrun cf rinit ls1 in
   r_thr s1 c = RRunning k ->
   let ttl := if nf then c_nf cf else c_err cf in
